@@ -45,3 +45,9 @@ VARIANTS += [
     M('C11', 'refactor-early-exit-without-patterns', E(GT, "        self.reference_files[run] = reference_files.union(extras) - globbed", "        if not globbed:\n            return\n        self.reference_files[run] = reference_files.union(extras).difference(globbed)"),
       kind='refactor'),
 ]
+
+CFS = 'tdda/referencetest/checkfiles.py'
+VARIANTS += [
+    M('C11', 'captured-output-split-on-newline-only', E(CFS, "            actuals = actual.splitlines()\n            actual_ends_with_newline = actual.endswith('\\n')", "            actuals = actual.split('\\n')\n            actual_ends_with_newline = actual.endswith('\\n')"),
+      rule='C11-SPLIT', key='check_string_against_file'),
+]
